@@ -52,10 +52,22 @@ CHECKS = {
              "permuted pair list (what axis permutations induce); distances and all delay bins are preserved by "
              "orthogonal maps + translation; pt_solution / Stokes(translation) / tiling(translation, 48 axis maps) kernel invariances "
              "collected; visibility invariant given equal point-in-polygon answers; rescaling wall normal/up changes no "
-             "BRDF direction. NOT carried: the 0.5%-of-peak bound under axis permutations (Nusselt asymmetry; measured), "
-             "Stokes under rotations/scalings, Nusselt branch, point-in-polygon under rotations.",
-        note=TRUST + "That the baked kernel data of a placed scene are the sigma-transported data is established per "
-             "scene by the harness (matching patch centres), not by a theorem.",
+             "BRDF direction. For the COMPOSED room model (polygons -> tiling -> visibility -> form factors -> shares -> "
+             "exchange -> receiver) nothing is assumed about baked data: translating the room description gives the "
+             "IDENTICAL output curve (C17_room_translate: tiling, centroids, point-in-polygon, visibility scans, Stokes and "
+             "Nusselt entries, shares all derived); under the 48 signed axis permutations there is a patch renumbering pi "
+             "with centres, areas, wall ids, normals, all delay bins (C17_room_geometry_axis_permutation), source / "
+             "receiver shares and initial energies (C17_room_initial_energy_axis_permutation), the Stokes entries of the "
+             "form-factor matrix with any cut-off (C17_room_stokes_axis_permutation) transported; the wall frames follow "
+             "the handedness (C17_room_frames_axis_permutation: transported for the 24 rotations, tangential y flipped by a "
+             "mirroring); C17_room_axis_permutation_partial derives every other hypothesis of C17_relabel_scene for "
+             "rotations, C17_room_rotation_curve_partial concludes that the output curve is the identical list. NOT carried: the 0.5%-of-peak bound under axis permutations (Nusselt asymmetry; measured), "
+             "the Nusselt-branch entries and the visibility data of the image room (hypotheses of the partial theorem), "
+             "mirrorings of direction-dependent BRDFs, point-in-polygon under rotations.",
+        note=TRUST + "For translations the composed model's output is proved identical with no hypothesis.  For axis "
+             "permutations the patch-to-patch / source visibility and the Nusselt-branch form factors of the image room "
+             "being the sigma-transported data remain hypotheses (established per scene by the harness, matching patch "
+             "centres); all other baked data are derived.",
         technique="Coq proof (ring identities, Permutation-invariant sums) + extracted-model correspondence", ref="5/C17"),
     "C05": dict(
         text="Proof (partial): invisible pairs have exactly zero stored / full / baked factors; A_i ff_full i j = "
